@@ -49,7 +49,8 @@ def list_ops(fn_node: ast.AST, name: str) -> dict[str, int]:
             tg = n.targets if isinstance(n, ast.Assign) else [n.target]
             for t in tg:
                 if isinstance(t, ast.Subscript) and dotted(t.value) == name:
-                    ops["[i]="] = ops.get("[i]=", 0) + 1
+                    k = "[i:j]=" if isinstance(t.slice, ast.Slice) else "[i]="
+                    ops[k] = ops.get(k, 0) + 1
                 if isinstance(t, ast.Name) and t.id == name and isinstance(n, ast.AugAssign):
                     ops["augassign"] = ops.get("augassign", 0) + 1
     return ops
@@ -112,7 +113,7 @@ def run(ctx) -> None:
                 ctx.check((kind, isdir, full) in covered, RT, f"coverage kind={kind} isdir={isdir} full={full}", "no path of the translation handles this tree-changing kind", fi.loc)
 
     # simulated creates for the contents of a new directory
-    bp, L, rfi, _ = record_paths(P, fault=False)
+    bp, L, rfi, _all = record_paths(P, fault=False)
     from ..model import nested_function, returned_name
 
     RL = returned_name(rfi.node)  # the list read_events returns
@@ -161,14 +162,22 @@ def run(ctx) -> None:
         ctx.check(kinds["dirs"] and kinds["files"], RT, "new directory: one simulated create per walked directory and file", f"simulated creates missing or mis-flavoured (dirs ok={kinds['dirs']}, files ok={kinds['files']})", rfi.loc)
         break
     if not found_sim:
-        ctx.viol(RT, "new directory: one simulated create per walked directory and file", "no walk of a newly created directory's contents found", rfi.loc)
+        from .c02 import deferred_walk
+
+        if deferred_walk(_all):
+            ctx.unresolved.append("the contents walk of a new directory is not on the record's own path (deferred): its per-entry structure is not decided here")
+            ctx.ok(RT, "new directory: simulated creates (deferred walk, unresolved)", rfi.loc, nontrivial=False)
+        else:
+            ctx.viol(RT, "new directory: one simulated create per walked directory and file", "no walk of a newly created directory's contents found", rfi.loc)
 
     # ---------------------------------------------------------------- pipeline stages
     def stage(name, ok, msg, loc, detail=None):
         ctx.check(ok, RO, name, msg, loc, detail)
 
     ops = list_ops(rfi.node, RL)
-    stage("reader: returned event list", set(ops) <= {"append", "extend"} and bool(ops), f"operations on {RL}: {ops}", rfi.loc, ops)
+    if "[i:j]=" in ops:
+        ctx.unresolved.append(f"{RL} is also filled by slice assignment (positional insertion): whether kernel order is kept depends on index arithmetic, not decided")
+    stage("reader: returned event list", set(ops) <= {"append", "extend", "[i:j]="} and bool(set(ops) & {"append", "extend"}), f"operations on {RL}: {ops}", rfi.loc, ops)
     ops = list_ops(rfi.node, SL)
     stage("reader: simulated events list", set(ops) <= {"append", "extend"}, f"operations on the simulated list: {ops}", rfi.loc, ops)
     gf = P.find_method("InotifyBuffer", "_group_events")
